@@ -735,7 +735,10 @@ func genRobust(r *repo) string {
 		rlOK := strings.Contains(rl, "for { byts, err := d.downloadPreloadHint(ctx, pl.PreloadHint) if err != nil { return err }") &&
 			strings.Contains(rl, "pl, err = d.downloadPlaylist(ctx, d.firstPlaylist.ServerControl.CanSkipUntil != nil) if err != nil { return err }")
 		fmt.Fprintf(&b, "/-- `runTraditional` = for { fillSegmentQueue; waitUntilSizeIsBelow(1); downloadPlaylist } with every error returned -/\ndef traditionalLoopShape : Bool := %v\n", rtOK)
-		fmt.Fprintf(&b, "/-- `runLowLatency` = for { downloadPreloadHint; push; downloadPlaylist; hint test } with every error returned -/\ndef lowLatencyLoopShape : Bool := %v\n\n", rlOK)
+		fmt.Fprintf(&b, "/-- `runLowLatency` = for { downloadPreloadHint; push; downloadPlaylist; hint test } with every error returned -/\ndef lowLatencyLoopShape : Bool := %v\n", rlOK)
+		// fix-F28: a reloaded playlist without hint that carries ENDLIST ends the stream (nil marker, wait for Close)
+		rlEnd := strings.Contains(rl, "if pl.PreloadHint == nil { if pl.Endlist { d.segmentQueue.push(nil) <-ctx.Done() return fmt.Errorf(\"terminated\") } return fmt.Errorf(\"preload hint disappeared\") }")
+		fmt.Fprintf(&b, "/-- `runLowLatency`: `if pl.PreloadHint == nil { if pl.Endlist { push(nil); <-ctx.Done(); return }; return error }` (fix-F28) -/\ndef lowLatencyEndsOnEndlist : Bool := %v\n\n", rlEnd)
 	}
 
 	// --- pins of the functions the model mirrors beyond the classified facts -------------------------------------
